@@ -9,7 +9,7 @@
 use super::{hash_str, mix};
 use crate::dynview::{build_plain, Kind, Spec};
 use crate::gen::Rng;
-use crate::report::{guarded, Cfg, Monitor, Tier, TrialOut};
+use crate::report::{guarded, Cfg, Monitor, TrialOut};
 use crate::scalar::Scalar;
 use crate::xq::{self, Xq};
 use num::bigint::BigInt;
@@ -310,7 +310,7 @@ impl Monitor for C13 {
         let seed = rng.next();
         out.key(mix(hash_str(&format!("{}{:?}{}", NAMES[vi], shape, rep)), seed));
         // lengths L, 4L, 16L share one tolerance
-        let l = cfg.tier.pick(6_000u64, 600_000);
+        let l = cfg.tier.pick(20_000u64, 600_000);
         match rep % 4 {
             0 => run_exact(vi, shape, seed, cfg.tier.pick(1_200, 3_000), out),
             1 => run_f64(vi, shape, seed, l, out),
@@ -330,7 +330,7 @@ impl Monitor for C13 {
         v
     }
     fn rule(&self) -> String {
-        "trial = (WelfordRolling | Drawdown | LnReturn; stream shape: reflected walk, peaks after deeper troughs, repeated equal peaks, monotone runs, long flat stretches, three decades; seed; length). After every update: mean()/variance()/last() vs exact mean and population variance/std of all values so far (integer-scaled sums in i128), Drawdown vs the largest (peak_j - x_j)/peak_j over all j with the running peak, LnReturn vs ln(x_t/x_(t-1)). Equality at the exact scalar (1.2e3 / 3e3 values); at f64 tolerance 1e-9 of scale (1e-14 for LnReturn) at every step of streams of L, 4L and 16L values (L = 6e3 quick, 6e5 thorough: 16L ~ 1e5 / 1e7), the same tolerance at every length. distinct = distinct (view, shape, seed, length)".into()
+        "trial = (WelfordRolling | Drawdown | LnReturn; stream shape: reflected walk, peaks after deeper troughs, repeated equal peaks, monotone runs, long flat stretches, three decades; seed; length). After every update: mean()/variance()/last() vs exact mean and population variance/std of all values so far (integer-scaled sums in i128), Drawdown vs the largest (peak_j - x_j)/peak_j over all j with the running peak, LnReturn vs ln(x_t/x_(t-1)). Equality at the exact scalar (1.2e3 / 3e3 values); at f64 tolerance 1e-9 of scale (1e-14 for LnReturn) at every step of streams of L, 4L and 16L values (L = 2e4 quick, 6e5 thorough: 16L = 3.2e5 / ~1e7), the same tolerance at every length. distinct = distinct (view, shape, seed, length)".into()
     }
     fn assumptions(&self) -> Vec<String> {
         vec!["positive inputs k/64 in [1, 1000]".into(), "'any length' restated as: the same tolerance holds at L, 4L, 16L".into()]
